@@ -27,6 +27,16 @@ CLAIMED = {
  "C10": pk("Move/alignment arithmetic is MoveTarget/PadTo of Packet.tla, used by both machines; TLC checks C10_Same (every described field ends at the same relative position on input and output) and C10_Least (least padding < a) on U_C10 (modifier x reference x const/field/callable target, nesting, class align, per-element alignment, backward placement); field events (cursor after every described field, both directions) of the real classes are compared and judged.", "5.10"),
  "C12": pk("Fail/Unwind of Packet.tla predict the fields_stack (innermost entry = failing field, its class, the offset where it began; one entry per enclosing packet frame) for every failing input of U_C12/U_C10_Flat; replay compares phase flag, full stack (generic code), depth (generated code), str() totality, silent=True -> None, non-bytes -> ValueError; over-acceptance of failing inputs is owned too.", "5.12"),
  "C14": pk("MC_Context.tla runs two unpack machines in lockstep on (raw, 0) and (pre+raw+post, len(pre)) for every declaration without absolute positioning x every input x pre/post over the alphabet; TLC checks cursor lockstep, equal values / shifted end and shifted error offsets, with the open-ended-scan exemption decided by the specification; every pair is replayed on real classes and differing pairs are judged by TLC on the recorded pair.", "5.14"),
+ "C02": pk("MC_Values.tla chooses a declaration and a complete value assignment (Values.tla: per-kind domains with boundary integers, empty and maximal lists, absent optionals, nested packets), packs it with the pack machine and re-parses the output with the unpack machine; ConsistentPkt is the structural definition of 'values that satisfy the declaration'; TLC checks Inv_C02_Reparse, Inv_C02_Layout (independent concatenation of encodings), Inv_C02_PosReparse for positioned fields. Replay builds the packet by constructor and by attribute assignment, packs, re-parses, calls assert_consistency(); differing executions are judged by TLC (Trace_Values).", "5.2"),
+ "C03": pk("The same declaration is compiled under all 16 combinations of the four code-generation options; TLC enumerates U_C03 (runs of fixed-size fields with/without struct code, mixed byte order/signedness, variable fields, bit groups, a descriptor on a vectorised field) x all inputs; each behaviour is executed under all 16 settings, which must agree with each other; a disagreeing pair is recorded and TLC evaluates C03_SameU/C03_SameP on it; the value universes are packed under all 16 settings too.", "5.3"),
+ "C05": dict(text="IntCodec.tla is the two's-complement codec on base-256 digit sequences (no 32-bit limit); TLC checks the codec laws (encode-after-decode identity, range, endianness, sign relation) on all 65,536 two-byte patterns, lane-exhaustively for widths 3,4,5,8,9,16 and on the five endianness spellings x class default; every case is executed on the real Int field reached six ways (direct, in a vectorised pair, strictly inside a vectorised run, repeated, optional, selected by a Ref) under generic and generated code, including rejection of max+1 / min-1 / non-integers; random widths up to 32 bytes are recorded and checked by TLC (Trace_IntCodec).",
+             note="This is the 'transcribe the function, one implementation test per transition' use of TLC: the specification is the oracle and the enumerator. Exhaustive for widths <= 2, lane-exhaustive above. Little-endian host asserted for 'local'.",
+             technique="TLA+ specification of the codec on digit sequences checked by TLC + spec-to-code replay + TLC trace validation", design="5.5"),
+ "C07": pk("(a) unpack: MC_Packet over all 128 compositions of 8 bits x all 256 byte values, 24-bit groups, embedded/nested runs, little-endian class default; (b) pack: MC_Values with every member value in {0,1,2^w-1,2^w,2^w+1,-1,-2^w}: Inv_C07_Isolated (output = layout with each value mod 2^w) and a second pack after re-assigning one member; (c) class definition: MC_BitsReject, runs whose widths do not sum to a multiple of 8 are rejected (ByteBoundaryError), run detection on the described list. All replayed on real classes.", "5.7"),
+ "C09": dict(text="Deferred.tla: syntax trees -> Build (operator-method rules incl. reflected and mirrored dispatch) -> Compile (postfix) -> stack machine, on terms of the free algebra; TLC enumerates every well-formed tree up to a bound on operator nodes (every call form of chooses / if_true_then_else) and checks Inv_C09_Result and Inv_C09_Depth; every tree is built with the real operators on real field objects and executed by the real deferred.py, observed per instruction (operands, result) and compared with TLC's term and with eager Python; every operator of the tables is substituted on concrete operand samples (same value or same exception type, one compiled callable re-used across samples); random larger trees are recorded and validated by TLC (Trace_Deferred).",
+             note="Structural half exhaustive up to 3 (quick) / 4 (thorough) operator nodes; concrete half on operand samples. Trusted: TLC, Python's own operator dispatch as the eager oracle.",
+             technique="TLA+ model checking (TLC) of the expression compiler/stack machine + spec-to-code replay + TLC trace validation", design="5.9"),
+ "C19": pk("Values.tla defines DeclaredDefault per field kind and Construct(cls, K); MC_Values enumerates every subset of fields overridden by keyword x override values over U_C19 (every field kind and default form, nested prototypes with their own defaults and overrides, mutable defaults); replay compares every attribute of Cls(**K), checks that two constructions share no mutable object, and that pack() is the layout of those values; TLC (Trace_Values) judges differing executions.", "5.19"),
 }
 
 NOT_YET = {}
